@@ -40,6 +40,11 @@ def runHistG (db : Db) : List (HistItem × Py.Str) → List Json
 /-- the GENERATED `get` / wrappers / modifying methods (Gen/Get.lean: whole functions, MicroSql as the engine) -/
 def op (name : String) (j : Json) : Except String (Option Json) := do
   match name with
+  | "g_table_names" =>
+    let db ← dbOfJson (← j.getObjVal? "db")
+    pure (some (match GenG._get_table_names db with
+      | .ok l => Json.arr (l.map strJ).toArray
+      | .error e => errJ e))
   | "g_get_xyz" =>
     let db ← dbOfJson (← j.getObjVal? "db")
     let tn ← strOf j "tn"; let kw ← kwsOfJson j "kw"
